@@ -164,7 +164,11 @@ class Transformer(BaseEstimator, TransformerMixin, ABC):
         if data_key is not None:
             return dt[data_key]
         else:
-            return dt.dataset
+            # Return the Dataset without the bookkeeping attrs added by _serialize_data
+            ds = dt.to_dataset()
+            for attr in ("multiindexes", "name_map"):
+                ds.attrs.pop(attr, None)
+            return ds
 
     @classmethod
     def deserialize(cls, dt: xr.DataTree) -> Self:
